@@ -253,6 +253,11 @@ func init() {
 			runtime.ReadMemStats(&m0)
 			obs := decObs(ty, path, nil, false, b)
 			runtime.ReadMemStats(&m1)
+			if rvs != "F" {
+				// a used receiver: as in the parent, the used result first, then the fresh one
+				used := decObs(ty, path, unhx(rvs[1:]), true, b)
+				return fmt.Sprintf("%s alloc=%d ~ %s", used, m1.TotalAlloc-m0.TotalAlloc, obs)
+			}
 			return fmt.Sprintf("%s alloc=%d", obs, m1.TotalAlloc-m0.TotalAlloc)
 		}
 		if rvs == "F" {
